@@ -245,7 +245,10 @@ func runC09(t *testing.T, seed uint64, m *Mask) *Report {
 		// client with two global recording plugins
 		cliRec := &world.Recorder{PName: "c1", Env: e, TagVerdict: verdict}
 		cliRec2 := &world.Recorder{PName: "c2", Env: e, TagVerdict: verdict}
-		cli := e.NewPeer("cli", erpc.PeerConfig{}, cliRec, cliRec2)
+		// between them a plugin that only takes (fake) time after a call or push frame was written: the reply
+		// may then arrive while the caller is still in its post-write stage
+		cliSlow := &world.Slow{Env: e, P: []float64{0, 0.4, 0.9}[e.Gen.Intn(3)], PostLaunch: true}
+		cli := e.NewPeer("cli", erpc.PeerConfig{}, cliRec, cliSlow, cliRec2)
 		pf := world.ProtoFunc(proto)
 		sess, _, ca, _ := e.ServePair(cli, srv, pf, pf)
 		// expected server-side trace per message
